@@ -365,39 +365,39 @@ func relErrWithin(g ref.Num, x ref.X, k int64, p int) string {
 
 func genBigInt(t *rapid.T) *big.Int {
 	var i *big.Int
-	switch rapid.IntRange(0, 7).Draw(t, "bigKind") {
+	switch ir(t, 0, 7, "bigKind") {
 	case 0:
 		i = genCoef(t)
 	case 1:
 		// c * 10^k (+ tie pattern): exercises the 1e18-step reduction and sticky
-		k := rapid.IntRange(1, 6200).Draw(t, "k")
+		k := ir(t, 1, 6200, "k")
 		if rapid.Bool().Draw(t, "smallK") {
-			k = rapid.IntRange(1, 120).Draw(t, "kSmall")
+			k = ir(t, 1, 120, "kSmall")
 		}
 		i = new(big.Int).Mul(fullCoef(t), ref.Pow10(k))
-		switch rapid.IntRange(0, 3).Draw(t, "tie") {
+		switch ir(t, 0, 3, "tie") {
 		case 1:
 			i.Add(i, new(big.Int).Mul(big5, ref.Pow10(k-1)))
 		case 2:
 			i.Add(i, new(big.Int).Mul(big5, ref.Pow10(k-1)))
-			i.Add(i, bi(int64(rapid.IntRange(-1, 1).Draw(t, "tieOff"))))
+			i.Add(i, bi(int64(ir(t, -1, 1, "tieOff"))))
 		case 3:
-			i.Add(i, bi(int64(rapid.IntRange(0, 9).Draw(t, "low"))))
+			i.Add(i, bi(int64(ir(t, 0, 9, "low"))))
 		}
 	case 2:
 		// random bits: <=128, 129..256, >256
-		n := []int{rapid.IntRange(1, 128).Draw(t, "b1"), rapid.IntRange(129, 256).Draw(t, "b2"), rapid.IntRange(257, 21000).Draw(t, "b3")}[rapid.IntRange(0, 2).Draw(t, "bitsKind")]
-		bs := rapid.SliceOfN(rapid.Byte(), (n+7)/8, (n+7)/8).Draw(t, "bytes")
+		n := []int{ir(t, 1, 128, "b1"), ir(t, 129, 256, "b2"), ir(t, 257, 21000, "b3")}[ir(t, 0, 2, "bitsKind")]
+		bs := ubytes(t, (n+7)/8, "bytes")
 		i = new(big.Int).SetBytes(bs)
 	case 3:
 		// around the overflow threshold
-		i = new(big.Int).Mul(new(big.Int).Add(ref.Cmax, bi(int64(rapid.IntRange(-2, 2).Draw(t, "off")))), ref.Pow10(ref.Emax+rapid.IntRange(-2, 1).Draw(t, "eoff")))
-		i.Add(i, new(big.Int).Mul(bi(int64(rapid.IntRange(0, 9).Draw(t, "d"))), ref.Pow10(ref.Emax-1)))
+		i = new(big.Int).Mul(new(big.Int).Add(ref.Cmax, bi(int64(ir(t, -2, 2, "off")))), ref.Pow10(ref.Emax+ir(t, -2, 1, "eoff")))
+		i.Add(i, new(big.Int).Mul(bi(int64(ir(t, 0, 9, "d"))), ref.Pow10(ref.Emax-1)))
 	case 4:
-		i = new(big.Int).Lsh(ref.One, uint([]int{63, 64, 113, 127, 128, 129, 255, 256, 257}[rapid.IntRange(0, 8).Draw(t, "p2")]))
-		i.Add(i, bi(int64(rapid.IntRange(-2, 2).Draw(t, "off"))))
+		i = new(big.Int).Lsh(ref.One, uint([]int{63, 64, 113, 127, 128, 129, 255, 256, 257}[ir(t, 0, 8, "p2")]))
+		i.Add(i, bi(int64(ir(t, -2, 2, "off"))))
 	default:
-		n := rapid.IntRange(1, 80).Draw(t, "digits")
+		n := ir(t, 1, 80, "digits")
 		i = genDigits(t, min(n, 35))
 		if n > 35 {
 			i.Mul(i, ref.Pow10(n-35))
@@ -412,10 +412,10 @@ func genBigInt(t *rapid.T) *big.Int {
 
 func genNearBound(t *rapid.T) D {
 	bounds := []*big.Int{minI64, maxI64, minI32, maxI32, maxU64, maxU32, new(big.Int), big.NewInt(-1), big.NewInt(1)}
-	b := bounds[rapid.IntRange(0, len(bounds)-1).Draw(t, "bound")]
-	k := rapid.IntRange(0, 15).Draw(t, "scale")
+	b := bounds[ir(t, 0, len(bounds)-1, "bound")]
+	k := ir(t, 0, 15, "scale")
 	v := new(big.Int).Mul(b, ref.Pow10(k))
-	v.Add(v, bi(int64(rapid.IntRange(-12, 12).Draw(t, "j"))))
+	v.Add(v, bi(int64(ir(t, -12, 12, "j"))))
 	neg := v.Sign() < 0
 	v.Abs(v)
 	if v.Sign() == 0 {
@@ -428,13 +428,13 @@ func TestC10_FromInt(t *testing.T) {
 	runRapid(t, 40000, 1000000, func(t *rapid.T) {
 		var i int64
 		var u uint64
-		switch rapid.IntRange(0, 3).Draw(t, "kind") {
+		switch ir(t, 0, 3, "kind") {
 		case 0:
-			i = []int64{math.MinInt64, math.MinInt64 + 1, math.MaxInt64, math.MinInt32, math.MaxInt32, math.MinInt32 - 1, math.MaxInt32 + 1, 0, -1, 1}[rapid.IntRange(0, 9).Draw(t, "i")]
-			u = []uint64{0, 1, math.MaxUint64, math.MaxUint64 - 1, math.MaxUint32, math.MaxUint32 + 1, 1 << 63}[rapid.IntRange(0, 6).Draw(t, "u")]
+			i = []int64{math.MinInt64, math.MinInt64 + 1, math.MaxInt64, math.MinInt32, math.MaxInt32, math.MinInt32 - 1, math.MaxInt32 + 1, 0, -1, 1}[ir(t, 0, 9, "i")]
+			u = []uint64{0, 1, math.MaxUint64, math.MaxUint64 - 1, math.MaxUint32, math.MaxUint32 + 1, 1 << 63}[ir(t, 0, 6, "u")]
 		default:
-			i = rapid.Int64().Draw(t, "i64")
-			u = rapid.Uint64().Draw(t, "u64")
+			i = int64(u64(t, "i64"))
+			u = u64(t, "u64")
 		}
 		c10from.Run(t, c10FromArgs{I: i, U: u})
 	})
@@ -449,17 +449,17 @@ func TestC10_FromBig(t *testing.T) {
 func TestC10_ToInt(t *testing.T) {
 	runRapid(t, 80000, 3000000, func(t *rapid.T) {
 		var v D
-		switch rapid.IntRange(0, 5).Draw(t, "kind") {
+		switch ir(t, 0, 5, "kind") {
 		case 0, 1, 2:
 			v = genNearBound(t)
 		case 3:
 			// fractions just below an integer, and values in (-1, 1)
-			c := new(big.Int).Sub(ref.Pow10(rapid.IntRange(1, 34).Draw(t, "n")), bi(int64(rapid.IntRange(1, 3).Draw(t, "below"))))
-			v = DFin(genSign(t), c, -rapid.IntRange(0, 40).Draw(t, "scale"))
+			c := new(big.Int).Sub(ref.Pow10(ir(t, 1, 34, "n")), bi(int64(ir(t, 1, 3, "below"))))
+			v = DFin(genSign(t), c, -ir(t, 0, 40, "scale"))
 		case 4:
 			v = genAny(t)
 		default:
-			v = DFin(genSign(t), genCoef(t), rapid.IntRange(-45, 45).Draw(t, "e"))
+			v = DFin(genSign(t), genCoef(t), ir(t, -45, 45, "e"))
 		}
 		c10to.Run(t, c10ToArgs{V: v})
 	})
@@ -468,11 +468,11 @@ func TestC10_ToInt(t *testing.T) {
 func TestC10_Rat(t *testing.T) {
 	runRapid(t, 20000, 800000, func(t *rapid.T) {
 		var v D
-		if rapid.IntRange(0, 2).Draw(t, "kind") == 0 {
+		if ir(t, 0, 2, "kind") == 0 {
 			v = genFinite(t)
 		} else {
 			// moderate exponents: the bulk of real use, cheap to check
-			v = DFin(genSign(t), genCoef(t), rapid.IntRange(-400, 400).Draw(t, "e"))
+			v = DFin(genSign(t), genCoef(t), ir(t, -400, 400, "e"))
 		}
 		c10rat.Run(t, c10RatArgs{V: v})
 	})
@@ -481,13 +481,13 @@ func TestC10_Rat(t *testing.T) {
 func TestC10_FromRat(t *testing.T) {
 	runRapid(t, 20000, 1000000, func(t *rapid.T) {
 		var num, den *big.Int
-		switch rapid.IntRange(0, 4).Draw(t, "kind") {
+		switch ir(t, 0, 4, "kind") {
 		case 0, 1:
 			// both at most 34 digits: correctly rounded quotient
-			num = genDigits(t, rapid.IntRange(1, 34).Draw(t, "nl"))
-			den = genDigits(t, rapid.IntRange(1, 34).Draw(t, "dl"))
+			num = genDigits(t, ir(t, 1, 34, "nl"))
+			den = genDigits(t, ir(t, 1, 34, "dl"))
 			if rapid.Bool().Draw(t, "terminating") {
-				den = new(big.Int).Mul(pow(2, rapid.IntRange(0, 40).Draw(t, "a")), pow(5, rapid.IntRange(0, 20).Draw(t, "b")))
+				den = new(big.Int).Mul(pow(2, ir(t, 0, 40, "a")), pow(5, ir(t, 0, 20, "b")))
 				for ref.DecLen(den) > 34 {
 					den.Rsh(den, 1)
 				}
@@ -497,9 +497,9 @@ func TestC10_FromRat(t *testing.T) {
 			den = genBigInt(t)
 		case 3:
 			num = genBigInt(t)
-			den = genDigits(t, rapid.IntRange(1, 34).Draw(t, "dl"))
+			den = genDigits(t, ir(t, 1, 34, "dl"))
 		default:
-			num = genDigits(t, rapid.IntRange(1, 34).Draw(t, "nl"))
+			num = genDigits(t, ir(t, 1, 34, "nl"))
 			den = genBigInt(t)
 		}
 		if den.Sign() == 0 {
